@@ -205,7 +205,12 @@ inline uint64_t runSeed(Engine& e, const Args& a, uint64_t i) {
     return mix64(mix64(mix64(a.seed, strhash(e.name())), strhash(a.profile.c_str())), i);
 }
 
-inline bool propMatches(const Str& want, const Str& have) { return want.empty() || want == have; }
+inline bool propMatches(const Str& want, const Str& have) {      // want: empty (any) or a comma separated list of property ids
+    if (want.empty()) return true;
+    size_t p = 0;
+    while (p <= want.size()) { size_t q = want.find(',', p); if (q == Str::npos) q = want.size(); if (want.compare(p, q - p, have) == 0) return true; p = q + 1; }
+    return false;
+}
 
 inline Json countersJson() {
     Json j = Json::O();
